@@ -137,13 +137,15 @@ Print Assumptions c11_inlinee_lookup_sound.
    the FUNC ([ref_func]), its covering line record ([ref_line]), the covering INLINE record at
    depth 0,1,2,… ([ref_chain]), assembled by [ref_fill_func]; without a covering FUNC the
    greatest PUBLIC at or below the address, cut off exactly when a non-empty representable
-   FUNC record starts between it and the address.  (The parameter size is the one of
-   c11_func_sound; the STACK WIN tables are not part of the linear-scan statement.) *)
+   FUNC record starts between it and the address.  The parameter size is [ref_psize]: that
+   of the STACK WIN frame-data record covering the address, else of the fpo record, else the
+   FUNC's ([non_overlapping] includes the records of each STACK WIN table: with disjoint
+   records insert_win_stack_info repairs nothing, [win_collect_disjoint]). *)
 Theorem c11_equals_linear_scan : forall p rf mbase instr,
   wf_file rf -> non_overlapping rf -> 0 <= mbase -> mbase <= instr < two64 ->
   exists o, symbolize p rf mbase instr = Ret o /\
     match ref_func rf (instr - mbase) with
-    | Some fr => exists ps, o = ref_fill_func rf ps mbase (instr - mbase) fr
+    | Some fr => o = ref_fill_func rf (ref_psize rf fr (instr - mbase)) mbase (instr - mbase) fr
     | None =>
         ((forall q, In q (rf_publics rf) -> instr - mbase < p_addr q) /\ o = empty_out) \/
         (exists pb, In pb (rf_publics rf) /\ p_addr pb <= instr - mbase /\
@@ -164,10 +166,16 @@ Theorem c11_lookups_linear :
   (forall ls x, Forall wf_line ls -> pairwise line_dj ls ->
      rm_get (lines_tbl ls) x = find (fun l => line_covers l x) ls) /\
   (forall fr d x, pairwise inl_dj (fr_inls fr) ->
-     get_inlinee_at_depth (fn_inls (fin_func true fr)) d x = Ret (ref_inl fr d x)).
+     get_inlinee_at_depth (fn_inls (fin_func true fr)) d x = Ret (ref_inl fr d x)) /\
+  (forall ws x, Forall wf_win ws -> pairwise win_dj ws ->
+     exists wl, win_collect [] ws = Ret wl /\
+       rm_get (into_rangemap_safe_p win_eqb wl) x = find (fun w => win_covers w x) ws).
 Proof.
-  exact (conj funcs_linear (conj lines_linear
-           (fun fr d x H => eq_trans (giad_ret _ d x) (f_equal Ret (inls_linear fr d x H))))).
+  exact (conj funcs_linear (conj lines_linear (conj
+           (fun fr d x H => eq_trans (giad_ret _ d x) (f_equal Ret (inls_linear fr d x H)))
+           (fun ws x Hw Hd => ex_intro _ (win_list ws)
+              (conj (win_collect_disjoint ws [] (fun _ _ _ _ (F : False) => match F with end) Hd)
+                    (win_linear ws x Hw Hd)))))).
 Qed.
 Print Assumptions c11_lookups_linear.
 
@@ -205,13 +213,14 @@ Definition nv_file2 : raw_file :=
   mk_raw [(1, 7)] [(1, 21); (2, 22)] [mk_pub 8 3 0; mk_pub 90 9 4]
          [mk_fraw 16 32 4 5 [mk_line 16 16 1 10; mk_line 32 16 1 11; mk_line 40 0 1 99]
             [mk_inl 1 20 4 1 71 2; mk_inl 0 16 16 1 70 1; mk_inl 0 40 0 1 73 1; mk_inl 0 36 4 1 74 2];
-          mk_fraw 60 0 0 6 [] []; mk_fraw 64 8 0 7 [] []] [] [].
+          mk_fraw 60 0 0 6 [] []; mk_fraw 64 8 0 7 [] []] [mk_win 16 8 12 0; mk_win 40 0 1 0] [mk_win 20 8 20 0; mk_win 28 4 24 1].
 Example c11_nonvacuous_nonoverlap :
   wf_file nv_file2 /\ non_overlapping nv_file2 /\
   ref_func nv_file2 21 = Some (mk_fraw 16 32 4 5 [mk_line 16 16 1 10; mk_line 32 16 1 11; mk_line 40 0 1 99]
             [mk_inl 1 20 4 1 71 2; mk_inl 0 16 16 1 70 1; mk_inl 0 40 0 1 73 1; mk_inl 0 36 4 1 74 2]) /\
   symbolize Debug nv_file2 4096 (4096 + 21) =
-    Ret (mk_out (Some (5, 4112, 4)) (Some (7, 70, 4112)) [(21, Some 7, Some 71); (22, Some 7, Some 10)]) /\
+    Ret (mk_out (Some (5, 4112, 12)) (Some (7, 70, 4112)) [(21, Some 7, Some 71); (22, Some 7, Some 10)]) /\
+  symbolize Debug nv_file2 4096 (4096 + 25) = Ret (mk_out (Some (5, 4112, 20)) (Some (7, 70, 4112)) [(21, Some 7, Some 10)]) /\
   symbolize Debug nv_file2 4096 (4096 + 95) = Ret (mk_out (Some (9, 4186, 4)) None []) /\
   symbolize Debug nv_file2 4096 (4096 + 80) = Ret empty_out.
 Proof.
